@@ -2252,10 +2252,10 @@ def none_default(r: R, chk, quals: List[str], rule="NONE-DEFAULT", floor: int = 
         ctx = r.root(q)
         fi = ctx.fi
         opt = [p for p in fi.params if isinstance(fi.defaults.get(p), ast.Constant) and fi.defaults[p].value is None]
+        tests = [(x.test, x) for x in ast.walk(fi.node) if isinstance(x, (ast.If, ast.IfExp, ast.While))]
         for p in opt:
-            for t in ctx.cfg.nodes:
-                if t.kind != "test" or not isinstance(t.ast, ast.expr):
-                    continue
+            for texpr, holder in tests:
+                t = type("T", (), {"ast": texpr, "id": next((n_.id for n_ in ctx.cfg.nodes if n_.ast is texpr), -1)})()
                 # conjuncts / disjuncts of the test
                 parts = [t.ast]
                 while any(isinstance(x, ast.BoolOp) for x in parts):
@@ -2269,7 +2269,7 @@ def none_default(r: R, chk, quals: List[str], rule="NONE-DEFAULT", floor: int = 
                         chk.ob(rule, f"{q}: the default of `{p}` is recognised by `{seg(part, 30)}`", True, loc=r.loc(ctx, t.ast))
                     elif isinstance(neg, ast.Name) and neg.id == p:
                         # is the parameter still the caller's value here (not yet rebound)?
-                        rebound = [a for a in r.stmt_nodes(ctx) if isinstance(a.ast, ast.Assign) and any(isinstance(x, ast.Name) and x.id == p for x in a.ast.targets) and ctx.cfg.dominates(a.id, t.id)]
+                        rebound = [a for a in r.stmt_nodes(ctx) if t.id >= 0 and isinstance(a.ast, ast.Assign) and any(isinstance(x, ast.Name) and x.id == p for x in a.ast.targets) and ctx.cfg.dominates(a.id, t.id)]
                         if rebound:
                             continue
                         n += 1
@@ -2406,3 +2406,127 @@ def nan_guard(r: R, chk, qual: str, rule="NAN-GUARD"):
                    detail="" if ok else f"{qual}: `{seg(n.ast, 30)}` is reached without a test that a NaN fails (the tests on the way: {', '.join(sorted(('' if p_ else 'not ') + t_ for t_, p_ in facts)) or 'none'}): a 0/0 Newton step (the point at a centre of curvature) makes `{x}` NaN, it is returned as a candidate and the evaluation of the curve at NaN does not terminate",
                    func=qual, construct=f"iterate {x} returned without a NaN-rejecting test")
     chk.floor(rule, f"returns of the iterate in {qual}", nret, 1)
+
+
+# ------------------------------------------------------------------------------------------------
+# SWAP-SYMMETRIC: what a commutative operation computes from both operands does not change when they are exchanged
+class _SwapNames(ast.NodeTransformer):
+    def __init__(self, pairs):
+        self.m = {}
+        for a, b in pairs:
+            self.m[a], self.m[b] = b, a
+
+    def visit_Name(self, n):
+        return ast.copy_location(ast.Name(id=self.m.get(n.id, n.id), ctx=n.ctx), n)
+
+
+def _canon(e) -> str:
+    """text of an expression with the operands of commutative operations sorted"""
+    if isinstance(e, ast.Call) and isinstance(e.func, ast.Name) and e.func.id in ("min", "max") and not e.keywords:
+        return f"{e.func.id}({', '.join(sorted(_canon(a) for a in e.args))})"
+    if isinstance(e, ast.BinOp) and isinstance(e.op, (ast.Add, ast.Mult, ast.BitOr, ast.BitAnd)):
+        def flat(x):
+            if isinstance(x, ast.BinOp) and type(x.op) is type(e.op):
+                return flat(x.left) + flat(x.right)
+            return [x]
+        return f"({type(e.op).__name__} " + " ".join(sorted(_canon(x) for x in flat(e))) + ")"
+    if isinstance(e, ast.BinOp):
+        return f"({type(e.op).__name__} {_canon(e.left)} {_canon(e.right)})"
+    if isinstance(e, ast.Call):
+        return f"{_canon(e.func)}({', '.join(_canon(a) for a in e.args)})"
+    if isinstance(e, ast.Attribute):
+        return f"{_canon(e.value)}.{e.attr}"
+    if isinstance(e, ast.Subscript):
+        return f"{_canon(e.value)}[{_canon(e.slice)}]"
+    if isinstance(e, (ast.ListComp, ast.GeneratorExp, ast.SetComp)):
+        gens = "; ".join(f"{ast.unparse(g.target)} in {_canon(g.iter)} if {' and '.join(_canon(i) for i in g.ifs)}" for g in e.generators)
+        return f"[{_canon(e.elt)} for {gens}]"
+    if isinstance(e, (ast.Tuple, ast.List)):
+        return "(" + ", ".join(_canon(x) for x in e.elts) + ")"
+    if isinstance(e, ast.UnaryOp):
+        return f"({type(e.op).__name__} {_canon(e.operand)})"
+    if isinstance(e, ast.Compare) and len(e.ops) == 1 and isinstance(e.ops[0], (ast.Eq, ast.NotEq)):
+        return f"({type(e.ops[0]).__name__} " + " ".join(sorted([_canon(e.left), _canon(e.comparators[0])])) + ")"
+    return ast.unparse(e)
+
+
+def swap_symmetric(r: R, chk, qual: str, rule="SWAP-SYMMETRIC"):
+    """A * B = B * A, so the knot vector of a product is the same whichever operand is called `a`.  Every expression of the
+    function that takes the multiplicity of a knot in BOTH operand vectors (local names expanded) must be unchanged — up to the
+    order of the arguments of min / max / + / * — when the two operands (their knot vectors, degrees and everything derived from
+    one of them alone) are exchanged."""
+    from .common import expand_locals
+
+    ctx = r.root(qual)
+    fi = ctx.fi
+    ps = [p for p in fi.params if p not in ("self", "cls")]
+    if len(ps) < 2:
+        from .. import AnalysisError
+
+        raise AnalysisError(f"{qual} is not a binary operation")
+    pa, pb = ps[0], ps[1]
+    # locals derived from exactly one operand, paired by a common stem: degreea / degreeb, multa / multb
+    derived = {pa: "a", pb: "b"}
+    ch = True
+    while ch:
+        ch = False
+        for a in ast.walk(fi.node):
+            if isinstance(a, ast.Assign) and len(a.targets) == 1 and isinstance(a.targets[0], ast.Name) and a.targets[0].id not in derived:
+                src = {derived[x.id] for x in ast.walk(a.value) if isinstance(x, ast.Name) and x.id in derived}
+                if len(src) == 1:
+                    derived[a.targets[0].id] = next(iter(src))
+                    ch = True
+    exprs = []
+    for st in ast.walk(fi.node):
+        if isinstance(st, (ast.Assign, ast.Return, ast.AugAssign)) and st.value is not None:
+            e = expand_locals(fi, st.value)
+            sides = {derived[x.value.id] for x in ast.walk(e) if isinstance(x, ast.Attribute) and x.attr == "mult" and isinstance(x.value, ast.Name) and x.value.id in derived}
+            if sides == {"a", "b"}:
+                exprs.append((st, e))
+    chk.floor(rule, f"expressions of {qual} that use the multiplicities of both operands", len(exprs), 1)
+    side_a = sorted(n for n, s_ in derived.items() if s_ == "a")
+    side_b = sorted(n for n, s_ in derived.items() if s_ == "b")
+    for st, e in exprs:
+        names = {x.id for x in ast.walk(e) if isinstance(x, ast.Name)}
+        pairs = [(pa, pb)]
+        for na in side_a:
+            if na in names and na != pa:
+                # the partner: same name with the operand letter / name exchanged
+                cands = [nb for nb in side_b if nb != pb and (nb == na[:-1] + "b" or nb.replace(pb, pa) == na)]
+                if cands:
+                    pairs.append((na, cands[0]))
+        swapped = _SwapNames(pairs).visit(ast.parse(ast.unparse(e), mode="eval").body)
+        ok = _canon(e) == _canon(swapped)
+        chk.ob(rule, f"{qual}: `{seg(e, 60)}` is unchanged when the operands are exchanged", ok, loc=r.loc(ctx, st),
+               detail="" if ok else f"{qual}: `{seg(e, 80)}` becomes `{seg(swapped, 80)}` when `{pa}` and `{pb}` are exchanged, which is a different expression: the knot vector of A * B is not the knot vector of B * A, so for one of the two orders the product space is wrong (too smooth or invalid) whenever the degrees differ",
+               func=qual, construct="operands not treated alike")
+
+
+# ------------------------------------------------------------------------------------------------
+# D-VALUE: no divisor is computed from the values of the curve
+def div_by_value(r: R, chk, quals: List[str], rule="D-VALUE"):
+    """a curve may take the value 0 and its derivative may vanish (a repeated control point of a polyline): in the integrators a
+    quantity that depends on the control points of the curve is never a divisor (the span length, the number of nodes and the
+    quadrature weights are)"""
+    n = 0
+    bad = 0
+    for q in quals:
+        ctx = r.root(q)
+        fi = ctx.fi
+        cp = r.srcs(fi, [f"{fi.params[0]}.ctrlpoints"]) if fi.params else []
+        for d in ast.walk(fi.node):
+            div = d.right if isinstance(d, ast.BinOp) and isinstance(d.op, (ast.Div, ast.FloorDiv, ast.Mod)) else (d.value if isinstance(d, ast.AugAssign) and isinstance(d.op, (ast.Div, ast.FloorDiv)) else None)
+            if div is None:
+                continue
+            n += 1
+            v = ctx.val(div)
+            # inside a comprehension the interpreter records the element value under the same node
+            deps = v.all_dep() if v is not None else set()
+            if any(R.dep_has(deps, w) for w in cp):
+                bad += 1
+                chk.ob(rule, f"{q}: the divisor `{seg(div, 30)}` does not come from the values of the curve", False, loc=r.loc(ctx, d),
+                       detail=f"{q}: `{seg(d, 60)}` divides by `{seg(div, 30)}`, which is computed from the control points of `{fi.params[0]}`: where the curve (here: the derivative of a polyline with a repeated control point) is exactly zero the division gives nan / ZeroDivisionError and the integral — the length of the polyline — is lost",
+                       func=q, construct=f"division by a value of the curve: {seg(div, 30)}")
+    if not bad:
+        chk.ob(rule, f"no division by a value of the curve in {', '.join(x.split('.')[-1] for x in quals)} ({n} divisions)", True, loc="")
+    return n
